@@ -1,5 +1,11 @@
-"""C14 — retention removes only data that has expired (work in progress)."""
-import os, re
+"""C14 — retention removes only data that has expired.
+
+In-package harness hooks/engine/c14_test.go (+ c14_glue_test.go in package engine_test, which may import
+services/retention, + the accessor hooks/services/retention/c14_hook.go): the REAL retention.Service.handle
+drives a REAL EngineImpl with real shards on disk and a REAL meta.Data catalogue inside one testing/synctest
+bubble per worker (virtual clock). Every history of the bounded alphabet is executed, a reference model of
+"expired" decides every step. See notes/C14.md."""
+import os, re, shutil, tempfile, time
 import checklib
 
 # Background tick periods that have nothing to do with retention are lengthened (overlay copies generated
@@ -44,9 +50,67 @@ SPEC = dict(
     overlay_extra=overlay_extra,
     level="model_checking",
     workers=16,
-    deadline={"quick": 150, "thorough": 1500},
+    deadline={"quick": 170, "thorough": 1800},
     env={"GOMAXPROCS": "2"},
-    rule="wip",
-    assumptions=[],
+    rule="every history = root (initial policy duration in {G, 2G, 0=unlimited} x first shard {written and open, only in the catalogue = "
+         "not loaded}) followed by every sequence of <= d-1 operations of {advance the clock to end+D-1ns / end+D / end+D+1ns of the oldest live "
+         "group under the duration in force, advance by the service interval, retention run, retention run with one concurrent writer per open "
+         "shard, ALTER duration to 0 / G/2 / G / 2G, write a point at now / at now-D (edge of the window) / at now-D-G (outside), create a "
+         "catalogue-only group at now / at now-D} and a final retention run (d = 4 quick, 5 thorough); an operation that leaves the complete "
+         "state digest unchanged cuts its branch; the oracle runs after every step of the real code. evaluations = transitions of the real "
+         "code that were checked (each counted by exactly one worker) + decisions of the expiry table; distinct_nontrivial = distinct states "
+         "(clock position relative to end+d of every live group for every d of the menu, catalogue dump, engine shard and index sets with the "
+         "durations they hold, storage directories, model) reached by a state-changing transition, + distinct table cells",
+    assumptions=[
+        "testing/synctest virtual clock: time.Now() of the code under test is the bubble clock; lib/fasttime (coordinator's up-front "
+        "WritePointOutOfRP test, mergeset merge pacing) runs on the real clock outside the bubble and is not part of this check",
+        "one data node, one partition, one measurement; the MetaClient handed to the service applies each command to meta.Data the way "
+        "ts-meta's store does (no raft, no RPC); the shared-storage (logkeeper) branch of handle() is not exercised",
+        "three background tick periods that do not take part in retention are lengthened by overlay copies of the current tree (shard "
+        "snapshot ticker 100ms -> 20min, mergeset raw-item flusher and idle merger 1s -> 20min) and DBPTInfo load reporting is set to 20min, "
+        "so that a virtual hour costs milliseconds; the compaction worker is re-created inside the bubble",
+        "strict boundary (DESIGN 3a): a shard whose end + duration equals now is not yet deletable; removal of an expired shard from "
+        "catalogue, engine and storage is demanded after the second consecutive retention run at which it was expired",
+    ],
 )
+
+
+def _scratch():
+    """Per-history engines create and remove hundreds of small files; on tmpfs one history costs 1/5 of the
+    wall time it costs on the (shared, busy) disk. A few MB per worker. Fallback: the common scratch root."""
+    base = os.environ.get("VERIF_TMP")
+    if not base and os.path.isdir("/dev/shm") and os.access("/dev/shm", os.W_OK):
+        base = "/dev/shm"
+    if base:
+        return tempfile.mkdtemp(prefix="verif-C14-", dir=base)
+    return checklib.scratch_root("C14")
+
+
+def run(tier, replay):
+    cid = "C14"
+    t0 = time.time()
+    ov = checklib.gen_overlay(cid, SPEC["hooks"], overlay_extra(cid, tier))
+    binp = checklib.go_test_build(cid, SPEC["pkg"], ov)
+    scratch = _scratch()
+    try:
+        if replay:
+            reps = checklib.run_workers(cid, binp, SPEC["test"], "quick", 1, 600, scratch,
+                                        extra_env=dict(SPEC["env"], VERIF_REPLAY=os.path.abspath(replay)))
+            nv = sum(r.get("n_violations", 0) for r in reps)
+            for r in reps:
+                for v in r.get("violations") or []:
+                    print("REPLAY-VIOLATION kind=%s key=%s\n  %s" % (v["kind"], v["key"], v["detail"][:2500]))
+            print("replay: %s" % ("still fails" if nv else "passes"))
+            return 1 if nv else 0
+        dl = int(os.environ.get("VERIF_DEADLINE_S", SPEC["deadline"][tier]))
+        reps = checklib.run_workers(cid, binp, SPEC["test"], tier, SPEC["workers"], dl, scratch, extra_env=SPEC["env"])
+        depth = max((r.get("counters") or {}).get("max_depth", 0) for r in reps)
+        return checklib.finish(cid, tier, SPEC["level"], SPEC["rule"], reps, t0, SPEC["assumptions"], model=True,
+                               extra_cov={"bound": {"history_len": depth, "alphabet": 15, "roots": 6,
+                                                    "durations": ["0", "G/2 (refused by the catalogue)", "G", "2G"],
+                                                    "shard_group_duration": "1h", "last_operation": "retention run (H or Hw)"}})
+    finally:
+        shutil.rmtree(scratch, ignore_errors=True)
+
+
 CLAIMED = False
